@@ -240,6 +240,52 @@ pub fn suffix_independence<'a, T: Ty<'a>>(
     "ok".into()
 }
 
+/// C15 / C09 on the secondary entry point: the real `self_visit` of a parsed object, under the same visitor policy,
+/// must behave exactly like `visit` on the object's own bytes (same result, same callbacks; a Break is reported)
+pub fn self_visit_oracle<'a, T: Ty<'a>>(b: &'a [u8], n: usize, pol: Option<usize>, r: &Result<&ParseResult<'a, T>, Error>) -> String {
+    // the object to self-visit comes from a plain parse of the same input
+    let Ok(Ok(pr)) = pc(|| T::parse_(b, n)) else { return "na".into() };
+    let _ = r;
+    let k = pr.consumed();
+    if k > b.len() {
+        return "na".into();
+    }
+    let view: &'a [u8] = &b[..k];
+    let vb = B::of(b);
+    let obj = pr.parsed_owned();
+    // `self_visit` borrows the object for the data's lifetime; the object lives until the end of this function
+    let obj_ref: &'a T = unsafe { &*(&obj as *const T) };
+    let mut rec = Rec::new(vb, pol);
+    let sv = pc(|| T::self_visit_(obj_ref, &mut rec));
+    let sv = match sv {
+        Err(_) => return "FAIL:self_visit-panics".into(),
+        Ok(None) => return "na".into(),
+        Ok(Some(x)) => x,
+    };
+    let got = match &sv {
+        Ok(p2) => Outcome::Ok(T::f(&vb, p2.parsed()), p2.consumed()),
+        Err(e) => Outcome::Err(err_name(e)),
+    };
+    let got_rem_empty = sv.as_ref().map(|p2| p2.remaining().is_empty()).unwrap_or(true);
+    // reference: `visit` on the object's own bytes (the same memory), same policy
+    let mut rec2 = Rec::new(vb, pol);
+    let want = match pc(|| T::run(view, n, &mut rec2)) {
+        Err(_) => return "na".into(),
+        Ok(Ok(p2)) => Outcome::Ok(T::f(&vb, p2.parsed()), p2.consumed()),
+        Ok(Err(e)) => Outcome::Err(err_name(&e)),
+    };
+    if got != want {
+        return format!("FAIL:self_visit-result-differs-from-visit({})", if pol.is_some() { "under-break-policy" } else { "never-breaking" });
+    }
+    if rec.evs != rec2.evs {
+        return format!("FAIL:self_visit-callbacks-differ-from-visit({})", if pol.is_some() { "under-break-policy" } else { "never-breaking" });
+    }
+    if !got_rem_empty {
+        return "FAIL:self_visit-remainder-not-empty".into();
+    }
+    "ok".into()
+}
+
 // ---------------------------------------------------------------- C07 prefix / extension
 /// Over the prefixes b[..j]: MoreBytesNeeded up to some j0, then one and the same final outcome for every j >= j0
 /// (equal error, or equal object with equal consumed length); callbacks on a prefix are a prefix of the callbacks
@@ -654,6 +700,36 @@ pub fn rb(name: &str, b: &[u8], n: usize, ours: &Result<usize, Error>, line: &st
                         if (&p).into_iter().count() != v.len() {
                             return Err("FAIL:into_iter-count".into());
                         }
+                        // the provided / specialised adaptors: nth(k) from a fresh iterator and after two next(); the
+                        // remaining length afterwards; the length after running off the end
+                        for start in [0usize, 2] {
+                            for k in [0usize, 1, v.len().saturating_sub(1), v.len(), v.len() + 1, v.len() + 3] {
+                                if start > v.len() {
+                                    continue;
+                                }
+                                let r = pc(|| {
+                                    let mut it = (&p).into_iter();
+                                    for _ in 0..start {
+                                        it.next();
+                                    }
+                                    let x = it.nth(k).map(|x| x.value());
+                                    let after = it.size_hint();
+                                    let after_none = {
+                                        let mut it2 = (&p).into_iter();
+                                        while it2.next().is_some() {}
+                                        it2.size_hint()
+                                    };
+                                    (x, after, after_none)
+                                });
+                                let Ok((x, after, after_none)) = r else { return Err("FAIL:iterator-nth-or-len-panics".into()) };
+                                let idx = start + k;
+                                let want = v.get(idx).map(|t| t.value.to_sat());
+                                let left = v.len().saturating_sub(idx + 1);
+                                if x != want || after != (left, Some(left)) || after_none != (0, Some(0)) {
+                                    return Err(format!("FAIL:iterator-nth({})-after-{}-next", k, start));
+                                }
+                            }
+                        }
                     }
                     (Err(e), Err(o)) => errclass(&e, o)?,
                     _ => {}
@@ -892,7 +968,9 @@ pub fn redb_line(ctx: &Ctx, ty: &str, b: &[u8]) -> String {
                 Ok(pr) => {
                     let o = pr.parsed_owned();
                     let bytes: &[u8] = <$T as RedbValue>::as_bytes(&o);
+                    let a0 = crate::allocs();
                     let back = pc(|| <$T as RedbValue>::from_bytes(bytes));
+                    let redb_allocs = crate::allocs() - a0;
                     let fw = <$T as RedbValue>::fixed_width();
                     let fws = match fw {
                         Some(n) => n.to_string(),
@@ -940,7 +1018,7 @@ pub fn redb_line(ctx: &Ctx, ty: &str, b: &[u8]) -> String {
                                 Err(_) => "FAIL:database-panic".into(),
                             };
                         }
-                        format!("{} #redb={}", line, v)
+                        format!("{} #redb={} redballoc={}", line, v, if back.is_ok() { redb_allocs.to_string() } else { "panic".into() })
                     } else {
                         line
                     }
